@@ -287,6 +287,10 @@ def chk (pred : String) (m : List (String × String)) : Option Bool :=
     let extraD := match Spec.C06.creditOf final with | some c => [c.2.1] | none => []
     pure (Spec.C06.creditStep (res == "ok") sb sa final (balView bb) (balView ba) (supView sB) (supView sA)
       (keysOf bb ba extraK) (denomsOf sB sA extraD))
+  | "carry" => do
+    let pb ← (listOf (← get m "pb") "/").mapM parseProphecy
+    let pa ← (listOf (← get m "pa") "/").mapM parseProphecy
+    pure (Spec.C06.restartCarries pb pa (← get m "restb") (← get m "resta"))
   | "ledger" => do
     let sa := (parseStatus (← get m "sa")).getD .pending
     let final ← parseContent (← get m "final")
@@ -332,6 +336,7 @@ def chk (pred : String) (m : List (String × String)) : Option Bool :=
 def step (st : DState) (toks : List String) : DState × String :=
   match toks with
   | ["reset"] => (DState.init, "ok")
+  | ["restart"] => ({ st with s := (stepWorld drvOrd ⟨st.vals, st.s⟩ .restart).s }, "ok")
   | ["val", i, p, b] =>
     match i.toNat?, p.toNat? with
     | some i, some p => ({ st with vals := setVal st.vals ⟨i, p, b == "1"⟩ }, "ok")
